@@ -160,6 +160,7 @@ var c11Connections = []c11Lines{
 	{"prefixed-lookalike", []string{"xUpgrade"}},
 	{"suffixed-lookalike", []string{"Upgrade2"}},
 	{"other-token", []string{"keep-alive"}},
+	{"space-glued", []string{"close upgrade"}}, // one list element; the keyword is only part of it
 	{"empty", []string{""}},
 	{"absent", nil},
 }
@@ -173,6 +174,7 @@ var c11Upgrades = []c11Lines{
 	{"suffixed-lookalike", []string{"websockets"}},
 	{"prefixed-lookalike", []string{"xwebsocket"}},
 	{"other-token", []string{"h2c"}},
+	{"space-glued", []string{"not websocket"}},
 	{"empty", []string{""}},
 	{"absent", nil},
 }
